@@ -111,4 +111,84 @@ def run_c08(prop, tier, seed, replay):
     return code
 
 
-REGISTRY = {"C20": run_c20, "C08": run_c08}
+
+
+def run_c16(prop, tier, seed, replay):
+    t0 = time.time()
+    work = os.path.join(P.WORKROOT, f"{prop}-{tier}")
+    shutil.rmtree(work, ignore_errors=True)
+    os.makedirs(work)
+    out = P.Outcome(prop)
+    cases = os.path.join(work, "cases.ndjson")
+    insts = []
+    args = []
+    if replay:
+        payload = json.load(open(replay))
+        if payload.get("case"):
+            open(cases, "w").write(json.dumps(payload["case"]) + "\n")
+            args = ["--cases", cases]
+        else:
+            args = ["--n", str(payload.get("n", 100)), "--seed", str(payload.get("seed", seed)), "--corpus", "/repo/tests/specs"]
+    else:
+        cfg = "sym_q" if tier == "quick" else "sym_t"
+        r = P.tlc_mc(os.path.join(MC, "MC_Symbols.tla"), os.path.join(MC, cfg + ".cfg"), work, workers=min(8, P.NCPU), heap="8g", timeout=10800)
+        if r["errors"]:
+            raise P.ToolError(f"MC_Symbols: {r['errors']}")
+        for inv in r["violated"]:
+            out.notes.append(f"design-level: {inv} violated")
+        n = P.extract("REPLAY", r["out"], cases)
+        os.remove(r["out"])
+        r["cases"] = n
+        insts.append({k: r[k] for k in ("name", "generated", "distinct", "wall", "cases", "violated")})
+        if tier == "quick":
+            # replay a seeded sample of the enumerated programs (all of them in the thorough tier)
+            import random
+            rnd = random.Random(seed)
+            lines = open(cases).readlines()
+            keep = [l for l in lines if rnd.random() < 12000 / max(1, len(lines))]
+            open(cases, "w").writelines(keep)
+        args = ["--cases", cases, "--n", "400" if tier == "quick" else "5000", "--seed", str(seed), "--corpus", "/repo/tests/specs"]
+    tp = os.path.join(work, "sym.trace")
+    rp = os.path.join(work, "sym.json")
+    rr = P.sh([P.DGV, "symbols", "--trace", tp, "--result", rp] + args, timeout=3000)
+    if rr.returncode != 0:
+        raise P.ToolError("dgv symbols failed")
+    res = json.load(open(rp))
+    lines = open(tp).readlines()
+
+    def world_of(l):
+        for ln in lines[:l][::-1]:
+            if ln.startswith('{"ev":"symworld"'):
+                return json.loads(ln)
+        return None
+    for m in res["mismatches"]:
+        out.violation(f"{m['what']} in {m['world']}: {m.get('msg', '')[:100]}", dict(property=prop, source="symbols", detail=m, seed=seed, n=100))
+    merged = P.validate_trace(os.path.join(P.SPEC, "trace", "T_Symbols.tla"), os.path.join(P.SPEC, "trace", "T_Symbols.cfg"), tp, work,
+                              reset_prefix='{"ev":"symworld"')
+    for m in merged["mismatch"]:
+        w = world_of(m["l"])
+        out.violation(f"{m['what']} at trace line {m['l']}", dict(property=prop, source="symbols-trace", what=m["what"], observed=m.get("obs"),
+                      world=w, seed=seed, n=100))
+    for st in merged["stopped"]:
+        raise P.ToolError(f"trace validation stopped: {st}")
+    code = out.finish()
+    kinds = {}
+    for ln in lines:
+        k = ln[7:ln.index('"', 7)]
+        kinds[k] = kinds.get(k, 0) + 1
+    coverage = dict(states=max(1, sum(i["distinct"] for i in insts) + merged["events"]), transitions=max(1, sum(i["generated"] for i in insts) + merged["events"]),
+                    traces_validated_against_impl=kinds.get("symworld", 0), samples=[json.loads(lines[0])] if lines else [{"note": "none"}],
+                    exhaustive=False, trace_events_by_kind=kinds, instances=insts, design_notes=out.notes,
+                    explanation="design level: for every star re-export graph over three modules (self loops, cycles, diamonds) and every assignment of own names the visited-set DFS as coded "
+                                "equals the ES fixpoint (own names win, default not re-exported); implementation level: enumerated programs are rendered and the real export key sets compared "
+                                "with the prediction; projected symbol tables of enumerated programs, seeded random packages and the spec corpus are checked by TLC against WellFormedTree; "
+                                "go-to-definition is run from every symbol under a step/time budget")
+    P.write_evidence(prop, tier, seed, "model_checking", coverage, time.time() - t0, len(out.violations),
+                     assumptions=["the symbol filler is not modelled: its output is checked against the tree invariant, not predicted",
+                                  "'each other symbol' is read as symbols whose declarations are definitions (the crate's own spec helper makes the same distinction)"])
+    if tier == "quick" or code == 0:
+        shutil.rmtree(work, ignore_errors=True)
+    return code
+
+
+REGISTRY = {"C20": run_c20, "C08": run_c08, "C16": run_c16}
